@@ -46,7 +46,10 @@ def gen_case(rng, tier):
              'value': rng.choice([1, 'm', None, [1, 2], {'q': 1}])} for _ in range(rng.randrange(1, 5))]
     return {'text': emit.emit(doc, style), 'buildable': buildable, 'safe': rng.random() < 0.8, 'filename': rng.choice([None, '/tmp/x/cfg.yaml']),
             'method': rng.choice(['deepcopy', 'deepcopy', 'pickle2', 'pickle3', 'pickle4', 'pickle5']),
-            'before': before, 'after': after, 'muts': muts, 'api': rng.random() < 0.15}
+            'before': before, 'after': after, 'muts': muts, 'api': rng.random() < 0.15,
+            # what is "being parsed" by this thread while the copy is made (copies made from a custom constructor, inside a parse loop ...):
+            # the ambient per-thread defaults for new nodes must not leak into a copy
+            'ambient': rng.choice(['none', 'none', 'file', 'file_unsafe'])}
 
 
 def _despecial(doc):
@@ -79,10 +82,17 @@ def parse(case):
     return t
 
 
-def do_copy(tree, method):
-    if method == 'deepcopy':
-        return copy.deepcopy(tree)
-    return pickle.loads(pickle.dumps(tree, protocol=int(method[-1])))
+def do_copy(tree, method, ambient='none'):
+    import contextlib
+    from awesomeyaml.nodes.node import ConfigNode
+    with contextlib.ExitStack() as st:
+        if ambient != 'none':
+            st.enter_context(ConfigNode.default_filename('/verif_nowhere/being_parsed.yaml'))
+        if ambient == 'file_unsafe':
+            st.enter_context(ConfigNode.default_safe_flag(False))
+        if method == 'deepcopy':
+            return copy.deepcopy(tree)
+        return pickle.loads(pickle.dumps(tree, protocol=int(method[-1])))
 
 
 def ids(tree):
@@ -198,8 +208,10 @@ def run(case):
     if tv(O1) != tv(O2):
         return {'status': 'inconclusive', 'why': 'two parses of the same text differ: the round-trip oracle is unusable for this case'}
     vio = []
-    c = lib.outcome(do_copy, O1, case['method'])
-    txt = f'text={case["text"]!r} method={case["method"]} safe={case["safe"]}'
+    amb = case.get('ambient', 'none')
+    feats.append('ambient_defaults_' + amb)
+    c = lib.outcome(do_copy, O1, case['method'], amb)
+    txt = f'text={case["text"]!r} method={case["method"]} safe={case["safe"]} filename={case["filename"]!r} ambient defaults while copying={amb}'
     if c[0] == 'err':
         vio.append({'mech': 'copy-raises', 'what': f'{case["method"]} raises {type(c[1]).__name__}: {c[1]}; {txt}'})
     else:
@@ -222,7 +234,7 @@ def run(case):
             inner2 = [n for n in O2.ayns.nodes(include_self=False, allow_duplicates=True) if isinstance(n, ComposedNode) and not isinstance(n, tuple)]
             if inner1 and len(inner1) == len(inner2):
                 k = int(case['muts'][0]['sel'] * len(inner1))
-                ci = lib.outcome(do_copy, inner1[k], case['method'])
+                ci = lib.outcome(do_copy, inner1[k], case['method'], amb)
                 feats.append('inner_container_copied')
                 if ci[0] == 'err':
                     vio.append({'mech': 'copy-raises', 'what': f'{case["method"]} of an inner container raises {type(ci[1]).__name__}: {ci[1]}; {txt}'})
@@ -230,7 +242,7 @@ def run(case):
                     vio.append({'mech': 'inner-copy-differs', 'what': f'copy of inner container #{k} ({type(inner1[k]).__name__}) differs from the original: {_diff(tv(ci[1]), tv(inner2[k]))}; {txt}'})
         if not vio and case['buildable']:
             feats.append('behaviour_checked')
-            bc, bo = behaviour(case, do_copy(O1, case['method'])), behaviour(case, O2)
+            bc, bo = behaviour(case, do_copy(O1, case['method'], amb)), behaviour(case, O2)
             if bc != bo:
                 vio.append({'mech': 'behaves-differently', 'what': f'copy -> {util.short(bc, 300)} but original -> {util.short(bo, 300)}; before={case["before"]!r} after={case["after"]!r}; {txt}'})
         if not vio:
